@@ -114,7 +114,7 @@ fn case(rng: &mut Rng, pools: &mut Pools, rep: &mut Report, case_no: u64) {
         let escaped = if monitored {
             let out = inst.run(m, Arc::new(Jitter { seed: rng.next(), level: 0 }));
             if !out.overflow && out.panic.is_none() {
-                let opts = EOpts { expect_tl: m.runs_tl(), caller_thread: out.caller, outer_mode: m.outer() , top_mult: 1};
+                let opts = EOpts { expect_tl: m.runs_tl(), caller_thread: out.caller, outer_mode: m.outer() , top_mult: 1, partial: false};
                 if m.runs_units() {
                     let st = e_oracle(&plan, &out.events, &opts, &mut findings);
                     rep.metric("windows", st.windows as i64);
